@@ -5,7 +5,7 @@ import json, os, re, shutil, subprocess, sys, time
 VERIF = os.path.dirname(os.path.dirname(os.path.abspath(__file__)))
 SPEC = os.path.join(VERIF, "spec")
 HARNESS = os.path.join(VERIF, "harness")
-AXV = os.path.join(HARNESS, "target", "debug", "axv")
+AXV = os.environ.get("AXV_BIN") or os.path.join(HARNESS, "target", "debug", "axv")
 WORK = os.path.join(VERIF, "work")
 REPLAYS = os.path.join(VERIF, "replays")
 EVIDENCE = os.path.join(VERIF, "evidence")
